@@ -94,7 +94,7 @@ impl FromStr for Prefix {
         let parse_nibble = |n: u8| match n {
             b'0'..=b'9' => Ok(n - b'0'),
             b'a'..=b'f' => Ok(n - b'a' + 0xa),
-            b'A'..=b'F' => Ok(n - b'a' + 0xa),
+            b'A'..=b'F' => Ok(n - b'A' + 0xa),
             _ => anyhow::bail!("invalid hex digit {n:#x}"),
         };
 
